@@ -269,6 +269,31 @@ def rule_rca(repo, rep):
   good = masks and masks[0] in ('chunks != -1', 'chunks >= 0', 'chunks > -1')
   rep.add(R, 'rca._chunk_mean_centering:mask', 'derived' if good else
           'refuted', site(f), '' if good else 'chunk mask is %s' % masks)
+  # the inner covariance is the average within-chunk covariance (1/N)
+  Rb = 'R-FORM:rca-inner-covariance'
+  rep.rule(Rb, 'RCA\'s inner covariance is np.cov(<chunk-centred data>, '
+           'rowvar=0, bias=1): the average (1/N, not 1/(N-1)) within-chunk '
+           'covariance')
+  h = repo.get_func('rca.RCA.fit')
+  ic = [n for n in ast.walk(h.node) if isinstance(n, ast.Call) and
+        (repo.dotted(h.module, n.func) or '').endswith('numpy.cov')]
+  centred = set()
+  for n in ast.walk(h.node):
+    if isinstance(n, ast.Assign) and isinstance(n.value, ast.Call) and \
+            (repo.dotted(h.module, n.value.func) or '').endswith(
+                '_chunk_mean_centering') and \
+            isinstance(n.targets[0], ast.Tuple):
+      centred.add(ast.unparse(n.targets[0].elts[1]))
+  inner = [c_ for c_ in ic if c_.args and ast.unparse(c_.args[0]) in centred]
+  if not inner:
+    rep.unknown(Rb, 'rca.RCA.fit', site(h), 'covariance of the centred data '
+                'not found')
+  for c_ in inner:
+    kw = {k.arg: ast.unparse(k.value) for k in c_.keywords}
+    ok = kw.get('bias') in ('1', 'True') and 'ddof' not in kw
+    rep.add(Rb, 'rca.RCA.fit:inner_cov', 'derived' if ok else 'refuted',
+            site(h, c_), '' if ok else 'inner covariance computed with %s '
+            '(documented: average within-chunk covariance, bias=1)' % kw)
   # inverse square root: spectral form V Diag(w^-1/2) V^T
   R2 = 'R-FORM:rca-inverse-square-root'
   rep.rule(R2, '_inv_sqrtm(x) is V Diag(w^(-1/2)) V^T for (w, V) = eigh(x)')
